@@ -481,16 +481,10 @@ impl SlabRouter {
         if let Some(wal_mutex) = &self.wal {
             let mut wal = wal_mutex.lock();
 
-            // Log embedding if present
-            if let Some(TensorValue::Vector(embedding)) = value.get("_embedding") {
-                let entity_id = self.index.get_or_create(key);
-                wal.append(&WalEntry::EmbeddingSet {
-                    entity_id,
-                    embedding: embedding.clone(),
-                })
-                .map_err(|e| SlabRouterError::WalError(format!("Failed to log embedding: {e}")))?;
-            }
-
+            // One record per put: the value carries its `_embedding`, and replay restores the
+            // embedding slab from it by key. (A separate entity-id based embedding record made
+            // the put non-atomic across a crash and, because entity ids are reassigned during
+            // replay, could attach the vector to a different key.)
             // Log metadata set (sync behavior depends on WalConfig::sync_mode)
             wal.append(&WalEntry::MetadataSet {
                 key: key.to_string(),
@@ -523,20 +517,7 @@ impl SlabRouter {
         if let Some(wal_mutex) = &self.wal {
             let mut wal = wal_mutex.lock();
 
-            // Log embedding delete if key is in entity index
-            if let Some(entity_id) = self.index.get(key) {
-                wal.append(&WalEntry::EmbeddingDelete { entity_id })
-                    .map_err(|e| {
-                        SlabRouterError::WalError(format!("Failed to log embedding delete: {e}"))
-                    })?;
-                wal.append(&WalEntry::EntityRemove {
-                    key: key.to_string(),
-                })
-                .map_err(|e| {
-                    SlabRouterError::WalError(format!("Failed to log entity remove: {e}"))
-                })?;
-            }
-
+            // One record per delete: replay removes the embedding and the index entry by key.
             // Log metadata delete (sync behavior depends on WalConfig::sync_mode)
             wal.append(&WalEntry::MetadataDelete {
                 key: key.to_string(),
@@ -636,23 +617,17 @@ impl SlabRouter {
     /// Apply a single WAL entry to in-memory state.
     fn apply_wal_entry(&self, entry: &WalEntry) {
         match entry {
+            // Puts and deletes are replayed through the same routing as the live operations,
+            // so the recovered slabs (metadata, entity index, embeddings) end up exactly as the
+            // original calls left them.
             WalEntry::MetadataSet { key, data } => {
-                self.metadata.set(key, data.clone());
-                // Also update embeddings if present
-                if let Some(TensorValue::Vector(vec)) = data.get("_embedding") {
-                    let entity_id = self.index.get_or_create(key);
-                    if let Err(e) = self.embeddings.set(entity_id, vec) {
-                        tracing::warn!(
-                            entity_id = %entity_id.as_u64(),
-                            key = %key,
-                            error = %e,
-                            "Failed to restore embedding during WAL replay"
-                        );
-                    }
+                if let Err(e) = self.put(key, data.clone()) {
+                    tracing::warn!(key = %key, error = %e, "Failed to replay put from WAL");
                 }
             },
             WalEntry::MetadataDelete { key } => {
-                self.metadata.delete(key);
+                // The key may legitimately be absent (a delete of a missing key is logged too)
+                let _ = self.delete(key);
             },
             WalEntry::EmbeddingSet {
                 entity_id,
